@@ -6,6 +6,7 @@ package checks
 
 import (
 	"fmt"
+	"regexp"
 	"sort"
 	"strings"
 	"time"
@@ -102,7 +103,45 @@ func c17wellFormed(key, val string) (ok bool) {
 			ok = false
 		}
 	}()
+	if !c17addressesWellFormed(key, val) {
+		return false
+	}
 	return chain.MakeCodec().UnmarshalJSON([]byte(val), p) == nil
+}
+
+var c17addrField = regexp.MustCompile(`"address"\s*:\s*"([^"]*)"`)
+
+// c17addressesWellFormed: the addresses a governance value carries (the DAO owner; the owners an ACL
+// names) are written as 40 hexadecimal digits, or left empty. Decided here on the text, not by the
+// address parser of the code under test.
+func c17addressesWellFormed(key, val string) bool {
+	okAddr := func(s string) bool {
+		if len(s) == 0 {
+			return true
+		}
+		if len(s) != 40 {
+			return false
+		}
+		for _, c := range s {
+			if !(c >= '0' && c <= '9' || c >= 'a' && c <= 'f' || c >= 'A' && c <= 'F') {
+				return false
+			}
+		}
+		return true
+	}
+	switch key {
+	case "gov/daoOwner":
+		if len(val) >= 2 && val[0] == '"' && val[len(val)-1] == '"' && !strings.ContainsAny(val[1:len(val)-1], `"\\`) {
+			return okAddr(val[1 : len(val)-1])
+		}
+	case "gov/acl":
+		for _, m := range c17addrField.FindAllStringSubmatch(val, -1) {
+			if !okAddr(m[1]) {
+				return false
+			}
+		}
+	}
+	return true
 }
 
 func resolvedVal(t chain.TxSpec, before chain.View) string {
@@ -175,6 +214,16 @@ func c17alphabet(full bool) []Choice {
 	// the DAO owner cleared (JSON null) by the owner of that parameter: afterwards nobody is the DAO owner
 	cs = append(cs, txB(fmt.Sprintf("change(gov/daoOwner,by=k%d,null)", gOwner), chain.TxSpec{Msg: "change_param", From: gOwner, Key: "gov/daoOwner", Val: `null`}))
 	cs = append(cs, txB(fmt.Sprintf("change(gov/daoOwner,by=k%d,empty string)", gOwner), chain.TxSpec{Msg: "change_param", From: gOwner, Key: "gov/daoOwner", Val: `""`}))
+	// addresses of the wrong length inside an otherwise well-formed value (21 / 19 bytes as the new DAO
+	// owner; an ACL entry naming a 25-byte / 19-byte owner): malformed values, nothing may change
+	longHex := func(n int) string { return strings.Repeat("ab", n) }
+	for _, n := range []int{21, 19} {
+		cs = append(cs, txB(fmt.Sprintf("change(gov/daoOwner,by=k%d,%d-byte address)", gOwner, n), chain.TxSpec{Msg: "change_param", From: gOwner, Key: "gov/daoOwner", Val: `"` + longHex(n) + `"`}))
+	}
+	for _, n := range []int{25, 19} {
+		v := strings.Replace(vals["gov/acl"][0], chain.Addr(gStranger).String(), longHex(n), 1)
+		cs = append(cs, txB(fmt.Sprintf("change(gov/acl,by=k%d,an entry with a %d-byte address)", gOwner, n), chain.TxSpec{Msg: "change_param", From: gOwner, Key: "gov/acl", Val: v}))
+	}
 	// an ACL that lists a key twice with different addresses (accepted by ACL.Validate): everybody
 	// the list does not name for a key is still a stranger for it
 	dup := govTypes.ACL(make([]govTypes.ACLPair, 0))
@@ -193,6 +242,8 @@ func c17alphabet(full bool) []Choice {
 		}
 		// beyond the balance, to an address that has no account yet (nothing may remain of the attempt)
 		cs = append(cs, txB(fmt.Sprintf("dao_transfer(by=k%d,to a fresh address,1001)", s), chain.TxSpec{Msg: "dao_transfer", From: s, To: 14, Amount: 1001}))
+		// to the zero-length address, for which no account exists yet
+		cs = append(cs, txB(fmt.Sprintf("dao_transfer(by=k%d,to the empty address,100)", s), chain.TxSpec{Msg: "dao_transfer", From: s, To: chain.EmptyIndex, Amount: 100}))
 		// a transfer from the DAO account to the DAO account itself moves nothing
 		cs = append(cs, txB(fmt.Sprintf("dao_transfer(by=k%d,to the DAO account,250)", s), chain.TxSpec{Msg: "dao_transfer", From: s, To: chain.DAOIndex, Amount: 250}))
 		if full {
